@@ -49,6 +49,10 @@ fn flags_of(o: &Obj) -> String {
     if let Some((_, r)) = o.bindings.iter().find(|(l, _)| l == "QLayout.row") {
         f.push_str(r);
     }
+    // a static item model (upper-case letter: the Lean side does not look at it, the object tree does not depend on it)
+    if o.bindings.iter().any(|(l, _)| l == "model") {
+        f.push('M');
+    }
     f
 }
 
@@ -96,6 +100,9 @@ fn decode(s: &Sexp) -> Obj {
     let flags = l[3].as_atom().unwrap();
     if flags.contains('p') {
         o.bindings.push(("separator".into(), "true".into()));
+    }
+    if flags.contains('M') {
+        o.bindings.push(("model".into(), "[\"first\", \"second\"]".into()));
     }
     let row: String = flags.chars().filter(|c| c.is_ascii_digit()).collect();
     if !row.is_empty() {
@@ -146,7 +153,8 @@ fn skeleton(e: &xml::Element) -> Option<Sexp> {
         }
     }
     let mut v = vec![atom(tag), list(attrs)];
-    v.extend(e.elems().filter_map(skeleton));
+    // the <item> elements directly below a widget are the entries of its static item model (values, not objects)
+    v.extend(e.elems().filter(|c| !(tag == "widget" && c.name == "item")).filter_map(skeleton));
     Some(list(v))
 }
 
@@ -193,6 +201,24 @@ impl Stream for C11 {
             }
             let mut n_sep = 0;
             separators(&mut rng, &mut root, &mut n_sep);
+            // item widgets with a static model AND child objects (actions, menus): the children stay declared and listed
+            fn item_widgets(rng: &mut Rng, o: &mut Obj, n: &mut usize) {
+                if matches!(o.class.as_str(), "QComboBox" | "QListWidget" | "QFontComboBox") && rng.chance(1, 2) {
+                    if o.class != "QFontComboBox" && rng.chance(2, 3) {
+                        o.bindings.push(("model".into(), "[\"first\", \"second\"]".into()));
+                    }
+                    for _ in 0..rng.below(3) {
+                        *n += 1;
+                        let c = if rng.chance(1, 3) { Obj::new("QMenu").with_id(&format!("im{n}")) } else { Obj::new("QAction").with_id(&format!("ia{n}")) };
+                        o.children.push(c);
+                    }
+                }
+                for c in &mut o.children {
+                    item_widgets(rng, c, n);
+                }
+            }
+            let mut n_item = 0;
+            item_widgets(&mut rng, &mut root, &mut n_item);
             let mut labels = vec![format!("objects{}", (root.count() / 5) * 5), format!("depth{}", root.depth())];
             if illegal {
                 labels.push("illegal".into());
@@ -251,6 +277,9 @@ impl Stream for C11 {
             }
             if n_sep > 0 {
                 labels.push("static-separators".into());
+            }
+            if n_item > 0 {
+                labels.push("item-widget-children".into());
             }
             let snapshot = root.clone();
             let req = encode(&root, &snapshot);
